@@ -3,6 +3,7 @@ import MW.Model.Ledger
 import MW.Spec.Chain
 import MW.Spec.Pending
 import MW.Model.WithdrawSeq
+import MW.Model.TxLoc
 namespace MW.Drv.Led
 open MW MW.Model.Ledger
 
@@ -18,6 +19,7 @@ structure St where
   specChain : List Block := [⟨"G", "", 0, []⟩]    -- the chain the wallet has been told about (spec side)
   specPend : List Tx := []                        -- the pending set of MW.Spec.Pending (spec side)
   warm : Nat := Gen.Vm.massip2WarmUpHeight        -- consensus.MASSIP0002WarmUpHeight (a value of the run: op `warmup`)
+  shape : AMap.T TxId Model.TxLoc.Shape := []     -- what decides the encoded length of a defined transaction (block-file offsets)
   deriving Inhabited
 
 def init : St := {}
@@ -44,6 +46,37 @@ def parseOut (s : String) : Option Out :=
   -- the node's script-hash index lists it under `a` (engines imp / rem; fix D41)
   | [a, m, "bindbad", _] => m.toNat?.map (fun n => ⟨a, n, .raw⟩)
   | _ => none
+
+/-- (value, script length) of an output as the harness builds it (wenv.go buildOut): OP_0 <32-byte hash> [<8-byte frozen
+    period> | <20- or 22-byte target>], or the raw bytes -/
+def outShape (spec : String) : Option (Nat × Nat) :=
+  match spec.splitOn ":" with
+  | [_, m] => m.toNat?.map (fun n => (n, 34))
+  | ["raw", m, h] => m.toNat?.map (fun n => (n, if h = "-" then 0 else h.length / 2))
+  | [_, m, "stk", _] => m.toNat?.map (fun n => (n, 43))
+  | [_, m, "bind", _] => m.toNat?.map (fun n => (n, 55))
+  | [_, m, "bind22", _] => m.toNat?.map (fun n => (n, 57))
+  | [_, m, "bindbad", _] => m.toNat?.map (fun n => (n, 57))
+  | _ => none
+
+/-- the shape of a transaction defined by `tx NAME UNIQ INS OUTS` (wenv.go DefineTx: version 1, no witnesses, lock time 0,
+    payload = 8 bytes ‖ NAME) -/
+def shapeOf (name ins outs : String) : Option Model.TxLoc.Shape :=
+  let is : Option (Option (List (Nat × Nat))) :=
+    if ins = "cb" then some none
+    else ((parseList ins).mapM (fun s => (parseIn s).map (fun i => (i.idx, i.seq)))).map some
+  match is, (parseList outs).mapM outShape with
+  | some is, some os => some { ins := is, outs := os, payload := 8 + name.utf8ByteSize }
+  | _, _ => none
+
+/-- encoded length of a defined transaction -/
+def lenOf (shape : AMap.T TxId Model.TxLoc.Shape) (t : Tx) : Nat :=
+  match AMap.get shape t.id with
+  | some s => s.dbLen
+  | none => 0
+
+/-- chainFetcher.FetchTxByLoc on the driver's node: by byte offset (MW.Model.TxLoc) -/
+def St.txAt (st : St) (height : Nat) (loc : BlkId × Nat) : Option Tx := st.node.txAtLoc (lenOf st.shape) height loc
 
 def ctx (st : St) : Ctx := { p := st.p, own := st.own, wallets := st.wallets, node := st.node }
 
@@ -111,7 +144,8 @@ def step (st : St) (args : List String) : St × String :=
     | some is, some os =>
       -- the harness refuses inputs whose source tx is undefined
       if is.any (fun i => (AMap.get st.txs i.tx).isNone) then (st, "err") else
-      ({ st with txs := AMap.put st.txs t ⟨t, cb, is, os⟩ }, "ok")
+      ({ st with txs := AMap.put st.txs t ⟨t, cb, is, os⟩,
+                 shape := match shapeOf t ins outs with | some sh => AMap.put st.shape t sh | none => st.shape }, "ok")
     | _, _ => (st, "err")
   | ["block", b, prev, txs] =>
     if (AMap.get st.node.known b).isSome then (st, "err") else
@@ -240,7 +274,7 @@ def step (st : St) (args : List String) : St × String :=
         match AMap.get st.store.txrecs (g.tx, ⟨g.height, bh⟩) with
         | none => none
         | some loc =>
-          match st.node.txByLoc g.height loc, AMap.get st.store.credits ⟨g.tx, ⟨g.height, bh⟩, g.vout⟩ with
+          match st.txAt g.height loc, AMap.get st.store.credits ⟨g.tx, ⟨g.height, bh⟩, g.vout⟩ with
           | some tx, some c =>
             match tx.outs[g.vout]? with
             | some o =>
@@ -314,7 +348,7 @@ def step (st : St) (args : List String) : St × String :=
             (match AMap.get st.store.txrecs (c.tx, c.blk) with
             | none => "err"
             | some loc =>
-              match st.node.txByLoc c.blk.height loc with
+              match st.txAt c.blk.height loc with
               | some tx =>
                 if tx.id ≠ c.tx then "err" else
                 (match tx.outs[idx]? with
